@@ -191,3 +191,14 @@ Fixpoint split_tag_aux (s : string) (acc : string) : string * string :=
   end.
 Definition base_name (s : string) : string := fst (split_tag_aux s "").
 Definition tag_of (s : string) : string := snd (split_tag_aux s "").
+
+Fixpoint string_rev_aux (s acc : string) : string :=
+  match s with
+  | EmptyString => acc
+  | String c r => string_rev_aux r (String c acc)
+  end.
+Definition string_rev (s : string) : string := string_rev_aux s EmptyString.
+
+Definition suffixb (suf s : string) : bool := prefixb (string_rev suf) (string_rev s).
+Definition strip_suffix (suf s : string) : string :=
+  if suffixb suf s then string_rev (drop_str (String.length suf) (string_rev s)) else s.
